@@ -179,6 +179,26 @@ Theorem C17_getters_translated : forall s p,
   (forall d, get_bool_def s p d = ConfXlate.on_elem s p (fun v e => tr_GetBoolWithDef v e d)).
 Proof. exact ConfXlate.getters_translated. Qed.
 
+(* the methods of elem, and the listing getters on an element of the model's store seen as the Go code sees it
+   (children in store order — a Go map iterates in an unspecified order, the correspondence compares as sets) *)
+Theorem C17_elem_methods_translated : forall e name child line value kd,
+  tr_addLine e line = Some (ge_set_line e (ge_line e ++ [line])) /\
+  tr_setValue e value = Some (ge_set_value e value) /\
+  tr_addChild e name child = Some (ge_set_children e (gs_map_set (ge_children e) name child)) /\
+  tr_findChild e name = Some (gs_map_get2 (ge_children e) name) /\
+  tr_newElem kd name = Some {| ge_kind := kd; ge_name := name; ge_value := []; ge_children := []; ge_line := [] |}.
+Proof. exact ConfXlate.tr_elem_methods. Qed.
+Theorem C17_listing_getters_translated : forall s p v, analysis_path p = Ok v ->
+  let nd := ConfXlate.get_elem_view s v in
+  tr_getDomain p (fst nd) (snd nd) = Some (match get_domain s p with Ok l => l | _ => [] end, snd nd) /\
+  tr_getDomainKey p (fst nd) (snd nd) = Some (match get_domain_key s p with Ok l => l | _ => [] end, snd nd) /\
+  tr_getDomainLine p (fst nd) (snd nd) = Some (match get_domain_line s p with Ok l => l | _ => [] end, snd nd) /\
+  tr_getMap p (fst nd) (snd nd) =
+    Some (fold_left (fun m kv => gs_map_set m (fst kv) (snd kv)) (match get_map s p with Ok l => l | _ => [] end) [], snd nd) /\
+  (forall d, tr_getValue p (fst nd) (snd nd) = Some (match lookup s (key_of_vec v) with Some i => ivalue i | None => [] end, snd nd)
+             /\ get_string_def s p d = Ok (match lookup s (key_of_vec v) with Some i => ivalue i | None => d end)).
+Proof. exact ConfXlate.tr_listing_getters_equiv. Qed.
+
 (* ---- no panic -------------------------------------------------------------------------------- *)
 Theorem C17_no_panic_parse : forall bs n, parse bs <> Panic n.
 Proof. exact ConfProofs.parse_no_panic. Qed.
@@ -220,5 +240,7 @@ Print Assumptions C17_line_loop_translated.
 Print Assumptions C17_line_loop_frame.
 Print Assumptions C17_analysis_path_translated.
 Print Assumptions C17_getters_translated.
+Print Assumptions C17_elem_methods_translated.
+Print Assumptions C17_listing_getters_translated.
 Print Assumptions C17_no_panic_parse.
 Print Assumptions C17_no_panic_getters.
